@@ -25,6 +25,7 @@ Not decided here: LU/QR based determinants (n > 4), isorthogonal (needs a real f
 bound of the property ("machine arithmetic treated as mathematical": ATOMS proves exactness on integer-valued data only).
 """
 from units.common import *
+import os
 
 LEVEL_NOTE = ('per instantiation (function, type, size/shape, argument kind, ISA, std): the returned scalar equals the fold of the '
               'scalar operation over all elements -- SYM (min/max/predicates/isequal/trace-int: all element values), ATOMS/LIN and '
@@ -91,23 +92,64 @@ def sum_case(ty, shape, cfg, kind, mode='ATOMS'):
 # min / max
 # ----------------------------------------------------------------------------------------------
 def minmax_case(op, ty, shape, cfg, kind, dom='finite'):
+    """min / max.  Clauses, for a universally quantified (symbolic) position j:
+         A  r <= x_j                                   (>= for max)           "r is a lower bound"
+         B  (forall k. x_j <= x_k)  ==>  r == x_j      (bit-identical for ints, numerically for floats)
+         C  (floats) r is +0.0 / -0.0 only if some element has that bit pattern
+       Without NaN, A & B & C for every j  <=>  (exists k. r bit-identical to x_k) and (forall k. r <= x_k): some j is a
+       minimum, B gives r == x_j, and numerically equal non-zero floats are bit-identical.  (The direct disjunction
+       "r same x_0 or ... or r same x_n-1" is the same statement but is not decided by the SAT back end for n >= 8.)"""
     n = prod(shape)
     c = Buf('c', ty, 1, 'out')
     bufs, decl, x, el = argument(ty, shape, kind)
+    j = Scalar('j', INT, 0, n - 1)
+    # element j of the argument, j symbolic: same construction as `el` with a symbolic index
+    if kind in ('own', 'map'): ej = E.inp(bufs[0], E.arg(j))
+    elif kind == 'expr': ej = E.inp(bufs[0], E.arg(j)) + E.inp(bufs[1], E.arg(j))
+    elif kind == 'expr-sub': ej = E.inp(bufs[0], E.arg(j)) - E.inp(bufs[1], E.arg(j))
     body = '    %s\n    c[0] = %s(%s);' % (decl, op, x)
     r = E.post(c, 0)
-    ens = [('bool', 'result is an element of the input', disj([r.same(e) for e in el]))]
-    for k, e in enumerate(el):
-        ens.append(('bool', 'result %s element %d' % ('<=' if op == 'min' else '>=', k), r.cmp('le' if op == 'min' else 'ge', e)))
+    le = 'le' if op == 'min' else 'ge'
+    word = 'minimum' if op == 'min' else 'maximum'
+    ens = [('bool', 'result %s element j (every j)' % ('<=' if op == 'min' else '>='), r.cmp(le, ej)),
+           ('bool', 'if element j is a %s the result is that element (every j)' % word,
+            conj([ej.cmp(le, e) for e in el]).bnot().bor(r.same(ej) if ty.kind == 'int' else r.cmp('eq', ej)))]
     req = []
     if ty.kind == 'float':
+        for z, nm in ((0.0, '+0.0'), (-0.0, '-0.0')):
+            zc = E.const(z, ty)
+            ens.append(('bool', 'a %s result is the bit pattern of some element' % nm, r.same(zc).bnot().bor(disj([e.same(zc) for e in el]))))
         for b in bufs:
             for k in range(b.n):
                 v = E.inp(b, k)
                 req.append(v.cmp('eq', v))                                  # no NaN (stated restriction)
                 if dom == 'finite': req.append(v.fabs().cmp('le', E.const(FLT_MAX[ty.bits], ty)))
     fam = '%s-%s' % (op, 'int' if ty.kind == 'int' else 'flt') + ('-inf' if dom == 'inf' else '')
-    return Case(cid(fam, ty, shape, kind, cfg), 'C16', body, bufs + [c], ens, 'SYM', cfg, requires=req)
+    return Case(cid(fam, ty, shape, kind, cfg), 'C16', body, bufs + [c], ens, 'SYM', cfg, requires=req, scalars=[j],
+                replay_values=sign_patterns(bufs, dom, kind))
+
+def sign_patterns(bufs, dom, kind):
+    """native replay only: the generic trials cycle through the sign patterns named by the property (as generated / all
+    negative / all positive / one extreme element at a random position) and respect the stated requires (no NaN; finite)."""
+    L = []
+    for b in bufs:
+        T = b.ty.cpp; n = b.n; nm = b.name
+        sub = kind == 'expr-sub' and b is bufs[1]     # second operand of A - B: opposite sign gives elements of one sign
+        if b.ty.kind == 'float':
+            big = 'std::numeric_limits<%s>::max()' % T
+            L.append('    for (int k = 0; k < %d; k++) { if (%s[k] != %s[k]) %s[k] = 0; %s}' % (n, nm, nm, nm,
+                     ('if (std::isinf(%s[k])) %s[k] = %s[k] < 0 ? -%s : %s; ' % (nm, nm, nm, big, big)) if dom == 'finite' else ''))
+            L.append('    if (t %% 4 == 1) for (int k = 0; k < %d; k++) %s[k] = %s(std::fabs(%s[k]) + 1);' % (n, nm, '' if sub else '-', nm))
+            L.append('    if (t %% 4 == 2) for (int k = 0; k < %d; k++) %s[k] = %s(std::fabs(%s[k]) + 1);' % (n, nm, '-' if sub else '', nm))
+            ext = ('(t & 4) ? -%s : %s' % (big, big)) if dom == 'finite' else '(t & 4) ? -INFINITY : INFINITY'
+            L.append('    if (t %% 4 == 3) %s[rng() %% %d] = %s;' % (nm, n, ext))
+            if dom == 'inf': L.append('    if (t %% 8 == 5) for (int k = 0; k < %d; k++) %s[k] = (t & 8) ? -INFINITY : INFINITY;' % (n, nm))
+        else:
+            top = '((%s)1 << %d)' % (T, b.ty.bits - 1)
+            L.append('    if (t %% 4 == 1) for (int k = 0; k < %d; k++) %s[k] = %s;' % (n, nm, ('(%s[k] & ~%s) | 1' if sub else '%s[k] | %s') % (nm, top)))
+            L.append('    if (t %% 4 == 2) for (int k = 0; k < %d; k++) %s[k] = %s;' % (n, nm, ('%s[k] | %s' if sub else '(%s[k] & ~%s) | 1') % (nm, top)))
+            L.append('    if (t %% 4 == 3) %s[rng() %% %d] = (t & 4) ? %s : ~%s;' % (nm, n, top, top))
+    return '\n'.join(L)
 
 # ----------------------------------------------------------------------------------------------
 # predicates
@@ -179,8 +221,18 @@ def issymmetric_case(ty, M, cfg, kind):
     else:
         # the comparison is made in double precision against the tolerance 1e-14
         xs = [(E.inp(a, i * M + j) - E.inp(a, j * M + i)).fabs().cast(DBL).cmp('le', E.const(1e-14, DBL)) for i in range(M) for j in range(M) if i != j]
+        # requires: finite data (for NaN / inf-inf differences "symmetric within tol" is not defined by the property)
+        for k in range(n):
+            req.append(E.inp(a, k).fabs().cmp('le', E.const(FLT_MAX[ty.bits], ty)))
     ens = [(r, 0, conj(xs) if xs else E.const(1, BOOL))]
-    return Case(cid('issymmetric', ty, (M, M), kind, cfg), 'C16', body, [a, r], ens, 'SYM', cfg, requires=req)
+    hook = None
+    if ty.kind == 'float':   # native replay: respect the requires, and make half of the trials symmetric
+        hook = ('    for (int k = 0; k < %d; k++) if (!std::isfinite(a[k])) a[k] = 0;\n'
+                '    if (t %% 2) for (int i = 0; i < %d; i++) for (int j = 0; j < i; j++) a[i*%d+j] = a[j*%d+i];' % (n, M, M, M))
+    else:
+        hook = ('    for (int k = 0; k < %d; k++) a[k] %%= (1 << 30);\n'
+                '    if (t %% 2) for (int i = 0; i < %d; i++) for (int j = 0; j < i; j++) a[i*%d+j] = a[j*%d+i];' % (n, M, M, M))
+    return Case(cid('issymmetric', ty, (M, M), kind, cfg), 'C16', body, [a, r], ens, 'SYM', cfg, requires=req, replay_values=hook)
 
 # ----------------------------------------------------------------------------------------------
 # trace / inner / norm
@@ -289,6 +341,9 @@ def sizes_boundary(V):
 def sizes_few(V):
     return sorted({1, 3, V, V + 1, 2 * V + 3})
 
+def sizes_min(V):
+    return sorted({1, V + 1, 2 * V + 3})
+
 def cases(tier, seed):
     rng = random.Random(seed)
     out = []
@@ -297,90 +352,111 @@ def cases(tier, seed):
         for std in (['c++14', 'c++17'] if thorough else ['c++14']):
             cfg = Cfg(isa, std)
             main_std = std == 'c++14'
-            for ty in ALL_TYPES + ((I64,) if thorough else ()):
+            full = thorough and main_std           # the large box: thorough tier, main language standard
+            for ty in ALL_TYPES + ((I64,) if full else ()):
                 V = vec_elems(isa, ty)
+                mult_ok = ty is not I64            # emulated 64-bit integer multiplies leave the ATOMS typing / are intractable
                 # ---- sum: every size 1..2V+3 (every residue modulo the vector width) ----
                 kinds = ['own', 'map', 'expr', 'method', 'method-map', 'expr-sub']
-                for i, n in enumerate(sizes_all(V) if main_std else sizes_boundary(V)):
-                    ks = kinds if thorough and main_std else [kinds[(i + ty.bits // 32) % len(kinds)]]
+                szs = sizes_all(V) if (full or (main_std and ty.bits == 32)) else sizes_boundary(V)
+                for i, n in enumerate(szs):
+                    ks = [kinds[(i + t) % 6] for t in (0, 2, 3)] if full else [kinds[(i + ty.bits // 32) % 6]]
                     for k in ks: out.append(sum_case(ty, (n,), cfg, k))
-                for shape in ([(3, 5), (2, 3, 4)] if not thorough else [(3, 5), (2, 3, 4), (4, 4), (2, 2, 2, 3)]):
+                for shape in ([(3, 5), (2, 3, 4)] if not full else [(3, 5), (2, 3, 4), (4, 4), (2, 2, 2, 3)]):
                     out.append(sum_case(ty, shape, cfg, 'own')); out.append(sum_case(ty, shape, cfg, 'expr'))
-                if ty.kind == 'int' and ty.bits == 32:
+                if ty is INT and main_std:
                     for n in range(1, V + 2):
                         out.append(sum_case(ty, (n,), cfg, 'own' if n % 2 else 'map', mode='SYM'))
                 # ---- min / max ----
-                if ty.bits == 32 or thorough:
-                    for op in ('min', 'max'):
-                        # (the int families and max-flt are known-defective: kept small in the quick tier because every failing
-                        #  case is replayed natively)
-                        szs = sizes_boundary(V) if (thorough and main_std) else sizes_few(V)
+                # (min-int, max-int, max-flt and the *-inf families are defective on the unchanged tree: every failing case
+                #  is replayed natively, so they are kept small in the quick tier)
+                for op in ('min', 'max'):
+                    if ty.bits == 32 or full:
+                        szs = sizes_boundary(V) if full else (sizes_few(V) if ty.kind == 'float' else sizes_min(V))
                         for i, n in enumerate(szs):
                             out.append(minmax_case(op, ty, (n,), cfg, ['own', 'map'][i % 2]))
                         if ty.kind == 'int':
                             out.append(minmax_case(op, ty, (V + 2,), cfg, 'expr'))
-                            out.append(minmax_case(op, ty, (2, 3), cfg, 'expr-sub'))
+                            if full: out.append(minmax_case(op, ty, (2, 3), cfg, 'expr-sub'))
                         else:
-                            for n in ((1, V + 1) if not thorough else sizes_few(V)):
+                            for n in ((V + 1,) if not full else sizes_few(V)):
                                 out.append(minmax_case(op, ty, (n,), cfg, 'own', dom='inf'))
-                        out.append(minmax_case(op, ty, (2, V + 1), cfg, 'own'))
-                elif main_std:
-                    for op in ('min', 'max'):
+                        if full or ty.kind == 'float': out.append(minmax_case(op, ty, (2, V + 1), cfg, 'own'))
+                    elif main_std:
                         for n in (3, V + 1):
                             out.append(minmax_case(op, ty, (n,), cfg, 'own'))
                 # ---- trace ----
-                Ms = range(1, 7) if not thorough else range(1, 10)
-                for M in Ms:
-                    out.append(trace_case(ty, M, cfg, 'own'))
-                    if M in (2, 3, 5) or thorough: out.append(trace_case(ty, M, cfg, 'map'))
-                    if M in (2, 3, 4) or thorough: out.append(trace_case(ty, M, cfg, 'expr'))
-                    if ty.kind == 'int' and ty.bits == 32 and M <= 5: out.append(trace_case(ty, M, cfg, 'own', mode='SYM'))
-                out.append(trace_batch_case(ty, 2, 3, cfg))
-                if thorough: out.append(trace_batch_case(ty, 3, 2, cfg)); out.append(trace_batch_case(ty, 2, 4, cfg))
+                if main_std:
+                    for M in (range(1, 6) if not full else range(1, 10)):
+                        out.append(trace_case(ty, M, cfg, 'own'))
+                        if M in (2, 3) or full: out.append(trace_case(ty, M, cfg, 'map'))
+                        if M == 3 or full: out.append(trace_case(ty, M, cfg, 'expr'))
+                        if ty is INT and M <= 5: out.append(trace_case(ty, M, cfg, 'own', mode='SYM'))
+                    out.append(trace_batch_case(ty, 2, 3, cfg))
+                    if full: out.append(trace_batch_case(ty, 3, 2, cfg)); out.append(trace_batch_case(ty, 2, 4, cfg))
+                else:
+                    out.append(trace_case(ty, 3, cfg, 'own')); out.append(trace_case(ty, 4, cfg, 'expr'))
                 # ---- inner ----
-                szs = sizes_boundary(V) + [4 * V, 4 * V + 1, 5 * V + 3] if not thorough else sizes_all(V) + [3 * V, 4 * V - 1, 4 * V, 4 * V + 1, 5 * V + 3, 8 * V + 1]
-                for i, n in enumerate(szs):
-                    out.append(inner_case(ty, (n,), cfg, ['own', 'map', 'mixed'][i % 3]))
-                for shape in [(2, 2), (3, 3), (2, 3, 2)]:
-                    out.append(inner_case(ty, shape, cfg, 'own'))
+                if mult_ok:
+                    if full: szs = sizes_all(V) + [3 * V, 4 * V - 1, 4 * V, 4 * V + 1, 5 * V + 3, 8 * V + 1]
+                    elif main_std: szs = sizes_few(V) + [2 * V - 1, 4 * V + 1]
+                    else: szs = [V + 1, 4 * V + 1]
+                    for i, n in enumerate(sorted(set(szs))):
+                        out.append(inner_case(ty, (n,), cfg, ['own', 'map', 'mixed'][i % 3]))
+                    if main_std:
+                        for shape in [(2, 2), (3, 3), (2, 3, 2)]:
+                            out.append(inner_case(ty, shape, cfg, 'own'))
                 # ---- norm (floating types) ----
                 if ty.kind == 'float':
-                    szs = sorted(set(sizes_boundary(V) + [4, 9, 4 * V, 4 * V + 1, 5 * V + 3] + ([8 * V, 8 * V + 3] if isa == 'avx512' else [])))
-                    if thorough: szs = sorted(set(szs + sizes_all(V) + [3 * V, 6 * V + 1, 8 * V + 3, 9 * V + 1]))
-                    for i, n in enumerate(szs):
+                    szs = sizes_few(V) + [4, 9, 4 * V + 1] + ([8 * V + 3] if isa == 'avx512' else [])
+                    if full: szs = szs + sizes_all(V) + [3 * V, 4 * V, 5 * V + 3, 6 * V + 1, 8 * V, 8 * V + 3, 9 * V + 1]
+                    if not main_std: szs = [4, 9, 2 * V + 3]
+                    for i, n in enumerate(sorted(set(szs))):
                         out.append(norm_case(ty, (n,), cfg, 'own'))
-                        if i % 2 == 0 or thorough: out.append(norm_case(ty, (n,), cfg, 'map'))
-                    for shape in [(2, 2), (3, 3)]:
-                        out.append(norm_case(ty, shape, cfg, 'own'))
+                        if i % 3 == 0 or full: out.append(norm_case(ty, (n,), cfg, 'map'))
+                    if main_std:
+                        for shape in [(2, 2), (3, 3)]:
+                            out.append(norm_case(ty, shape, cfg, 'own'))
                 # ---- product (bounded) ----
-                for i, n in enumerate(sizes_few(V) + [2, V - 1] if not thorough else sizes_boundary(V)):
-                    if n < 1: continue
-                    out.append(product_case(ty, (n,), cfg, ['own', 'map', 'method', 'expr-sub'][i % 4]))
-                if ty.kind == 'int' and ty.bits == 32:
-                    out.append(product_case(ty, (2,), cfg, 'own', bounded=False))
+                if mult_ok and main_std:
+                    szs = sizes_few(V) + [2, V - 1] if not full else sizes_boundary(V)
+                    for i, n in enumerate(sorted(set(x for x in szs if x >= 1))):
+                        out.append(product_case(ty, (n,), cfg, ['own', 'map', 'method', 'expr-sub' if ty.kind == 'int' else 'method-map'][i % 4]))
                 # ---- closed-form determinants (bounded) ----
-                for n in (1, 2, 3, 4):
-                    out.append(det_case(ty, n, cfg, 'own'))
-                    if n in (2, 3): out.append(det_case(ty, n, cfg, 'map')); out.append(det_case(ty, n, cfg, 'expr-sub', fn='det'))
+                if mult_ok and main_std:
+                    for n in (1, 2, 3, 4):
+                        if n == 4 and ty.kind == 'float' and not os.environ.get('C16_DET4'): continue    # 0/1 query not decided in 900 s (24 four-fold IEEE products on each side)
+                        out.append(det_case(ty, n, cfg, 'own'))
+                        if n in (2, 3): out.append(det_case(ty, n, cfg, 'map'))
+                        if n == 2: out.append(det_case(ty, n, cfg, 'expr-sub', fn='det'))
                 # ---- predicates on comparison expressions, isequal, issymmetric ----
-                if ty.bits == 32 or thorough:
+                if (ty.bits == 32 and main_std) or full:
                     rels = ['lt', 'eq', 'ge', 'ne', 'gt', 'le']
                     for j, pred in enumerate(('all_of', 'any_of', 'none_of')):
-                        for i, n in enumerate((1, 3, V + 1) if not thorough else (1, 2, 3, V, V + 1, 2 * V + 1)):
+                        szs = (1, 2, 3, V, V + 1, 2 * V + 1) if full else ((3, V + 1) if pred != 'none_of' else (V + 1,))
+                        for i, n in enumerate(szs):
                             out.append(pred_case(pred, (n,), cfg, 'cmp', ty, rels[(i + j) % 6]))
-                        out.append(pred_case(pred, (2, 3), cfg, 'cmp-scalar', ty, rels[(j + 3) % 6]))
-                        out.append(pred_case(pred, (V + 2,), cfg, 'cmp-eval', ty, rels[(j + 1) % 6]))
-                    for n in ((1, 3, V + 1) if ty.kind == 'int' else (1, 3, 5)):
-                        out.append(isequal_case(ty, (n,), cfg, 'own'))
-                    out.append(isequal_case(ty, (2, 2), cfg, 'map'))
-                    out.append(isequal_case(ty, (3,), cfg, 'own', tol=0.5))
+                        if full or pred != 'none_of':
+                            out.append(pred_case(pred, (2, 3), cfg, 'cmp-scalar', ty, rels[(j + 3) % 6]))
+                            out.append(pred_case(pred, (V + 2,), cfg, 'cmp-eval', ty, rels[(j + 1) % 6]))
+                    if ty.kind == 'int':
+                        for n in ((V + 1,) if not full else (1, 3, V + 1)):
+                            out.append(isequal_case(ty, (n,), cfg, 'own'))
+                        out.append(isequal_case(ty, (3,), cfg, 'own', tol=0.5))
+                        if full: out.append(isequal_case(ty, (2, 2), cfg, 'map'))
+                    else:
+                        for n in (1, 3, 5):
+                            out.append(isequal_case(ty, (n,), cfg, 'own'))
+                        out.append(isequal_case(ty, (2, 2), cfg, 'map'))
+                        out.append(isequal_case(ty, (3,), cfg, 'own', tol=0.5))
                     for M in (1, 2, 3):
                         out.append(issymmetric_case(ty, M, cfg, 'own' if M != 2 else 'map'))
             # ---- predicates on bool tensors ----
             for pred in ('all_of', 'any_of', 'none_of'):
-                for i, n in enumerate((1, 2, 5, 17) if not thorough else (1, 2, 3, 5, 8, 16, 17, 33)):
+                szs = (1, 2, 3, 5, 8, 16, 17, 33) if full else ((1, 2, 5, 17) if pred != 'none_of' else (1, 5))
+                for i, n in enumerate(szs):
                     out.append(pred_case(pred, (n,), cfg, ['bool-own', 'bool-map'][i % 2]))
-                out.append(pred_case(pred, (2, 3), cfg, 'bool-own'))
+                if full or pred != 'none_of': out.append(pred_case(pred, (2, 3), cfg, 'bool-own'))
     seen = set(); res = []
     for c in out:
         if c.cid not in seen: seen.add(c.cid); res.append(c)
